@@ -181,6 +181,10 @@ func (tf *tagFilter) Marshal(dst []byte) []byte {
 	isRegexp := byte(0)
 	if tf.isRegexp {
 		isRegexp = 1
+		if tf.isLiteralRegexp {
+			// value holds the unescaped literal: /a\.b/ must not share a key with /a.b/
+			isRegexp = 2
+		}
 	}
 
 	dst = append(dst, isNegative, isRegexp)
